@@ -201,20 +201,23 @@ def _unopt(t):
 
 
 def other_statements(src, name):
-    """ast dumps of every top-level statement except the named definition (and, for a method, of every
-    other member of its class)"""
+    """ast dumps of every top-level statement except the addressed one (the first statement that binds the
+    addressed simple name) and, for a method, of every other member of its class"""
     m = ast.parse(src)
     segs = name.split(".")
     out = []
+    skipped = False
     for stmt in m.body:
-        if len(segs) == 1 and segs[0] in members(stmt) and isinstance(stmt, (ast.Assign, ast.AnnAssign)):
-            continue  # a plain binding of the addressed name IS the addressed location
-        if segs[0] in members(stmt) and isinstance(stmt, (ast.ClassDef, ast.FunctionDef)):
+        if not skipped and segs[0] in members(stmt):
+            skipped = True
             if len(segs) > 1 and isinstance(stmt, ast.ClassDef):
                 out.append("class %s:" % stmt.name)
+                done = False
                 for s2 in stmt.body:
-                    if not (segs[1] in members(s2) and isinstance(s2, ast.FunctionDef)):
-                        out.append("  " + ast.dump(s2))
+                    if not done and segs[1] in members(s2) and isinstance(s2, ast.FunctionDef):
+                        done = True
+                        continue
+                    out.append("  " + ast.dump(s2))
             continue
         out.append(ast.dump(stmt))
     return out
